@@ -135,3 +135,52 @@ def run(ctx):
     rr = m.func("Scheduler._run")
     ok = any(isinstance(n, ast.Assign) and src(n.targets[0]) == "self._dryrun" and src(n.value) == "dryrun" for n in ast.walk(rr))
     r3.check(ok, f"{m.rel}:Scheduler._run:set-dryrun", "the run's dryrun argument is not stored in self._dryrun", m.rel, rr.lineno)
+
+    # ---- C28.4 -----------------------------------------------------------
+    r4 = ctx.rule("C28.4", "the dry-run flag influences no cache decision (necessary for 'a completed dry run returns what a real run returns')", floor=2)
+    cache_fns = []
+    for q, fn in m.funcs.items():
+        if q.count(".") == 1 and q.startswith("Scheduler.") and any(last_attr(c) in ("check_cache", "get_eval_cache", "get_cache") and "backend" in src(c.func) for c in calls_in(fn)):
+            cache_fns.append((q, fn))
+    for q in ("Scheduler._is_valid_value",):
+        cache_fns.append((q, m.func(q)))
+    if not any(q == "Scheduler._get_cache" for q, _ in cache_fns):
+        raise AnalysisError("no Scheduler method calling backend.check_cache found", "Scheduler._get_cache")
+    for q, fn in cache_fns:
+        reads = [n for n in ast.walk(fn) if isinstance(n, ast.Attribute) and n.attr in ("_dryrun", "dryrun") and isinstance(n.ctx, ast.Load)] + [
+            n for n in ast.walk(fn) if isinstance(n, ast.Name) and n.id == "dryrun" and isinstance(n.ctx, ast.Load)
+        ]
+        if not reads:
+            r4.good(f"{m.rel}:{q}:no-dryrun-read")
+            continue
+        for rd in reads:
+            # the read must be (part of) the test of an `if` whose body only logs
+            p = rd
+            if_node = None
+            while p is not None and p is not fn:
+                par = m.parent.get(p)
+                if isinstance(par, ast.If) and any(p is x for x in ast.walk(par.test)):
+                    if_node = par
+                    break
+                if isinstance(par, ast.stmt):
+                    break
+                p = par
+            ok = False
+            if if_node is not None and not if_node.orelse:
+                ok = all(isinstance(st, ast.Expr) and isinstance(st.value, ast.Call) and (last_attr(st.value) or "").lstrip("_").startswith("log") for st in if_node.body)
+            r4.check(
+                ok,
+                f"{m.rel}:{q}:dryrun-read",
+                f"{q} reads the dry-run flag at line {rd.lineno} for something other than logging: the cache lookup (scope, validity mode, accepted result) differs "
+                "between a dry run and a real run on the same backend, so a completed dry run can return a value the real run would not",
+                m.rel,
+                rd.lineno,
+            )
+    # the backend's cache API has no dry-run parameter
+    for mod in repo.modules.values():
+        if not mod.rel.startswith("redun/backends/"):
+            continue
+        for q, fn in mod.funcs.items():
+            if isinstance(fn, FuncNode) and any(a.arg == "dryrun" for a in fn.args.args + fn.args.kwonlyargs):
+                r4.violation(f"{mod.rel}:{q}:dryrun-param", f"backend function {q} takes a dryrun parameter: cache answers may differ between dry and real runs", mod.rel, fn.lineno)
+    r4.good("redun/backends:no-dryrun-parameter")
